@@ -5,6 +5,7 @@ package main
 // Coq model (Heap.v: step / canon_env).
 
 import (
+	"time"
 	"fmt"
 	"math"
 	"math/bits"
@@ -371,6 +372,7 @@ type Machine struct {
 	vars    []any
 	pred    bool
 	predMsg string
+	hung    bool // an operation did not return: the abandoned goroutine may still touch the containers, nothing further is executed
 }
 
 func (m *Machine) fail(f string, a ...any) {
@@ -419,7 +421,27 @@ func hvalAnyCoq(x any) string {
 
 // exec runs one op on the implementation. Returns the outcome as a Coq term ("Pan" or "(Ret ...)").
 // Containers returned become new variables.
+// exec runs one op under a watchdog: an operation that does not return within the limit is reported as a failure (the
+// goroutine is abandoned and the program stops there)
 func (m *Machine) exec(o *Op) (outcome string) {
+	if m.hung {
+		return "(Ret ONone)"
+	}
+	ch := make(chan string, 1)
+	go func() { ch <- m.execNow(o) }()
+	select {
+	case oc := <-ch:
+		return oc
+	case <-time.After(opLimit):
+		m.hung = true
+		m.fail("%s did not return within %v", o.String(), opLimit)
+		return "(Ret ONone)"
+	}
+}
+
+var opLimit = 8 * time.Second
+
+func (m *Machine) execNow(o *Op) (outcome string) {
 	var result any
 	hasResult := false
 	out := "ONone"
@@ -724,8 +746,9 @@ func (p *Prog) objRegs() []int {
 // do executes an op, recording the trace; extra per-property predicates are evaluated around it
 func (p *Prog) do(o *Op) string {
 	m := p.m
-	if p.broken {
-		return "(Ret ONone)" // the heap became unreadable earlier in this program: stop executing
+	if p.broken || m.hung {
+		p.broken = true
+		return "(Ret ONone)" // the heap became unreadable (or an operation hung) earlier in this program: stop executing
 	}
 	before := canonEnv(m.vars, nil)
 	nvars := len(m.vars)
